@@ -317,7 +317,10 @@ def compare_results(ref, res, cfg, stats=None):
                     {})
     p0, p1 = ref.get('psi'), res.get('psi')
     if p0 is not None and p1 is not None:
-        ov = abs(p0.overlap(p1)) / (p0.norm * p1.norm)
+        # normalise by the self-overlaps: engines such as QR-based TEBD leave psi slightly non-canonical, so that
+        # <psi|psi> computed through the transfer matrices is not exactly norm**2
+        n0, n1 = abs(p0.overlap(p0)), abs(p1.overlap(p1))
+        ov = abs(p0.overlap(p1)) / np.sqrt(n0 * n1)
         d = abs(1.0 - ov)
         if stats is not None:
             stats['max_dev'][tc + ':overlap'] = max(stats['max_dev'].get(tc + ':overlap', 0.0), float(d))
